@@ -1517,3 +1517,12 @@ P.tie_modules = ["TracklibVerif.Tie.C19"]
 P.theorems = P.theorems + [
     ("TracklibVerif.Tie.C19", "TV.Tie.C19.tie_getCell", "the Lean translation of the CURRENT source of Raster.getCell equals the model's getCell on all arguments (resolution != 0; int() = floor on integral floats; the scalar's == is Python's ==)"),
 ]
+# ---- cell operators of core/utils.py (tools/py2lean.py -> lean/TracklibVerif/Gen/Utils.lean), instantiated at the NaN-extended scalar
+P.theorems = P.theorems + [
+    ("TracklibVerif.Tie.C19", "TV.Tie.C19.tie_co_sum", "the Lean translation of the CURRENT source of co_sum, at the NaN-extended scalar, returns the model's coSum on every list (<= reflexive on non-NaN values)"),
+    ("TracklibVerif.Tie.C19", "TV.Tie.C19.tie_co_min", "the translation of co_min returns the model's coMin (none = NaN) on every list"),
+    ("TracklibVerif.Tie.C19", "TV.Tie.C19.tie_co_max", "the translation of co_max returns the model's coMax (none = NaN) on every list"),
+    ("TracklibVerif.Tie.C19", "TV.Tie.C19.tie_co_count", "the translation of co_count returns the model's coCount (number of non-NaN values) on every list"),
+    ("TracklibVerif.Tie.C19", "TV.Tie.C19.tie_co_avg", "the translation of co_avg returns the model's coAvg on every list, no ZeroDivisionError (int->float conversion = NatCast; a positive count is not == 0)"),
+    ("TracklibVerif.Tie.C19", "TV.Tie.C19.tie_co_median", "the translation of co_median (selection sort with list.remove) returns the model's coMedian on every list, no IndexError/ValueError (model == is Python ==; int(k/2) = k//2; int(k/2-1) = k//2-1 for even k; 0.5 = 1/2)"),
+]
